@@ -22,6 +22,7 @@ import (
 	"os"
 	"sort"
 	"strconv"
+	"strings"
 
 	"github.com/ctessum/geom"
 	"github.com/ctessum/geom/op"
@@ -442,6 +443,25 @@ func allClosed(ss []spell) bool {
 
 // ---------- generator ----------
 
+// dyadic coordinate scales: multiplying by a power of two is exact, so the shape stays on a grid
+// (products stay exact) while absolute magnitudes move across any fixed threshold in the code
+var dyadic = []int{-14, -16, -17, -18, -20, -24, -30, 20}
+
+func scaleRings(p []ring, e int) []ring {
+	f := math.Ldexp(1, e)
+	out := make([]ring, len(p))
+	for i, r := range p {
+		out[i] = make(ring, len(r))
+		for j, q := range r {
+			out[i][j] = geom.Point{X: q.X * f, Y: q.Y * f}
+		}
+	}
+	return out
+}
+
+// lay picks the memory layout suffix of a tag (see relayout)
+func lay(r *vproto.Rng) string { return []string{"", "", "", ".p", ".p", ".s"}[r.Intn(6)] }
+
 func gen(seed uint64, tier string) {
 	out := bufio.NewWriterSize(os.Stdout, 1<<20)
 	defer out.Flush()
@@ -475,6 +495,16 @@ func gen(seed uint64, tier string) {
 		fmt.Fprintf(out, "area g %s\ncent g %s\n", G(p), G(p))
 		fmt.Fprintf(out, "marea g %s\nmcent g %s\n", G(geom.MultiPolygon{p}), G(geom.MultiPolygon{p}))
 	}
+	packedShell, packedHole := ring{pt(0, 0), pt(4, 0), pt(4, 4), pt(0, 4)}, ring{pt(1, 1), pt(1, 3), pt(3, 3), pt(3, 1)}
+	for _, lm := range []string{"g.p", "g.s", "g"} {
+		fmt.Fprintf(out, "area %s %s\ncent %s %s\n", lm, G(geom.Polygon{packedShell, packedHole}), lm, G(geom.Polygon{packedShell, packedHole}))
+		mpk := geom.MultiPolygon{{ring{pt(0, 0), pt(2, 0), pt(2, 2), pt(0, 2)}}, {ring{pt(10, 10), pt(13, 10), pt(13, 13), pt(10, 13)}}}
+		fmt.Fprintf(out, "marea %s %s\nmcent %s %s\n", lm, G(mpk), lm, G(mpk))
+		for _, e := range []int{-17, -20, -30} {
+			b := toPoly(scaleRings([]ring{respell(big, spell{closed: true}), respell(hole, spell{closed: true, rev: true})}, e))
+			fmt.Fprintf(out, "area %s %s\ncent %s %s\nmcent %s %s\n", lm, G(b), lm, G(b), lm, G(geom.MultiPolygon{b}))
+		}
+	}
 	for _, mp := range []geom.MultiPolygon{{}, {{}}, {{sqcwC}}, {{sqC}, {respell(hole, spell{closed: true, rev: true})}},
 		{{sqcwC}, {respell(big, spell{closed: true}), respell(hole, spell{closed: true})}}} {
 		fmt.Fprintf(out, "marea g %s\nmcent g %s\n", G(mp), G(mp))
@@ -498,15 +528,28 @@ func gen(seed uint64, tier string) {
 	// ---- valid polygons under their spelling orbit ----
 	emitPoly := func(tag string, q []ring, ss []spell) {
 		g := G(toPoly(q))
-		fmt.Fprintf(out, "area %s %s\n", tag, g)
-		fmt.Fprintf(out, "cent %s %s\n", tag, g)
+		fmt.Fprintf(out, "area %s%s %s\n", tag, lay(r), g)
+		fmt.Fprintf(out, "cent %s%s %s\n", tag, lay(r), g)
 		if r.Intn(3) == 0 || allClosed(ss) {
 			mg := G(geom.MultiPolygon{toPoly(q)})
-			fmt.Fprintf(out, "mcent %s %s\n", tag, mg)
+			fmt.Fprintf(out, "mcent %s%s %s\n", tag, lay(r), mg)
 			if r.Intn(4) == 0 {
-				fmt.Fprintf(out, "marea %s %s\n", tag, mg)
+				fmt.Fprintf(out, "marea %s%s %s\n", tag, lay(r), mg)
 			}
 		}
+	}
+	randSpells := func(p []ring, closedAll bool, sameRev bool) ([]ring, []spell) {
+		q := make([]ring, len(p))
+		ss := make([]spell, len(p))
+		rev := r.Bool()
+		for j := range p {
+			ss[j] = spell{rev: r.Bool(), rot: rotChoices(len(p[j]))[r.Intn(4)], closed: closedAll || r.Bool()}
+			if sameRev {
+				ss[j].rev = rev
+			}
+			q[j] = respell(p[j], ss[j])
+		}
+		return q, ss
 	}
 	for i := 0; i < nBase; i++ {
 		nh := []int{0, 0, 1, 1, 2, 3, 4}[r.Intn(7)]
@@ -535,6 +578,15 @@ func gen(seed uint64, tier string) {
 		// float images of the same base (validity is affine invariant)
 		m := randAffine(r)
 		orbit(r, mapRings(m, base), 5+len(base), func(q []ring, ss []spell) { emitPoly("f", q, ss) })
+		// the same base at dyadic scales (absolute thresholds must not exist): three scales per base,
+		// one closed and one free spelling each; still tag g (exact on the scaled grid)
+		for k := 0; k < 3; k++ {
+			sb := scaleRings(base, dyadic[r.Intn(len(dyadic))])
+			q, ss := randSpells(sb, true, r.Bool())
+			emitPoly("g", q, ss)
+			q, ss = randSpells(sb, false, false)
+			emitPoly("g", q, ss)
+		}
 	}
 
 	// ---- multipolygons of disjoint members ----
@@ -587,7 +639,17 @@ func gen(seed uint64, tier string) {
 					}
 					mp[k] = toPoly(q)
 				}
-				fmt.Fprintf(out, "marea %s %s\nmcent %s %s\n", tag, G(mp), tag, G(mp))
+				if tag == "g" && rep%3 == 2 {
+					e := dyadic[r.Intn(len(dyadic))]
+					for k := range mp {
+						rs := make([]ring, len(mp[k]))
+						for j := range mp[k] {
+							rs[j] = mp[k][j]
+						}
+						mp[k] = toPoly(scaleRings(rs, e))
+					}
+				}
+				fmt.Fprintf(out, "marea %s%s %s\nmcent %s%s %s\n", tag, lay(r), G(mp), tag, lay(r), G(mp))
 			}
 		}
 	}
@@ -630,7 +692,7 @@ func gen(seed uint64, tier string) {
 		if grid {
 			tag = "g"
 		}
-		fmt.Fprintf(out, "len %s %s\n", tag, G(g))
+		fmt.Fprintf(out, "len %s%s %s\n", tag, lay(r), G(g))
 		// query points: random; a vertex; a point whose projection is an endpoint; a point on a segment;
 		// beyond each end of the first segment along its direction
 		a, b := first[0], first[1]
@@ -648,7 +710,7 @@ func gen(seed uint64, tier string) {
 				geom.Point{X: a.X * (1 + r.Float()), Y: b.Y * (1 - r.Float())})
 		}
 		for _, q := range qs {
-			fmt.Fprintf(out, "dist %s %s %s %s\n", tag, vproto.F2H(q.X), vproto.F2H(q.Y), G(g))
+			fmt.Fprintf(out, "dist %s%s %s %s %s\n", tag, lay(r), vproto.F2H(q.X), vproto.F2H(q.Y), G(g))
 		}
 	}
 
@@ -681,6 +743,144 @@ func gen(seed uint64, tier string) {
 
 func ptRes(p geom.Point) string { return "ok " + vproto.F2H(p.X) + " " + vproto.F2H(p.Y) }
 
+// ---------- memory layouts of the receiver ----------
+//
+// The tag's suffix selects how the rings handed to the real code sit in memory (the shape is the same):
+//
+//	(none)  every ring separately allocated, cap == len
+//	.p      all rings of the polygon / multipolygon / multilinestring are consecutive windows
+//	        flat[o:o+n] of ONE buffer, so each ring's spare capacity is the following ring's data
+//	.s      every ring is a prefix re-slice buf[:n] of its own buffer of n+1 points whose last slot
+//	        holds a sentinel
+//
+// After every measured call the whole buffer is compared bit for bit with a pristine copy
+// (and restored), "modified:<call>" is appended to the result when it differs.
+type layout struct {
+	bufs  [][]geom.Point // full backing buffers (len == cap)
+	clean [][]geom.Point
+}
+
+func (l *layout) window(mode string, rings [][]geom.Point) [][]geom.Point {
+	out := make([][]geom.Point, len(rings))
+	switch mode {
+	case "p":
+		total := 0
+		for _, r := range rings {
+			total += len(r)
+		}
+		flat := make([]geom.Point, total+2)
+		flat[total] = geom.Point{X: 987654.5, Y: -123456.5}
+		flat[total+1] = flat[total]
+		o := 0
+		for i, r := range rings {
+			copy(flat[o:], r)
+			out[i] = flat[o : o+len(r)] // cap reaches to the end of flat
+			o += len(r)
+		}
+		l.bufs = append(l.bufs, flat)
+	case "s":
+		for i, r := range rings {
+			buf := make([]geom.Point, len(r)+1)
+			copy(buf, r)
+			buf[len(r)] = geom.Point{X: 987654.5, Y: -123456.5}
+			out[i] = buf[:len(r)]
+			l.bufs = append(l.bufs, buf)
+		}
+	default:
+		for i, r := range rings {
+			buf := make([]geom.Point, len(r))
+			copy(buf, r)
+			out[i] = buf
+			l.bufs = append(l.bufs, buf)
+		}
+	}
+	return out
+}
+
+func (l *layout) snapshot() {
+	l.clean = make([][]geom.Point, len(l.bufs))
+	for i, b := range l.bufs {
+		l.clean[i] = append([]geom.Point(nil), b...)
+	}
+}
+
+// changed reports whether any buffer differs bit for bit from the snapshot, and restores it.
+func (l *layout) changed() bool {
+	ch := false
+	for i, b := range l.bufs {
+		for j := range b {
+			c := l.clean[i][j]
+			if math.Float64bits(b[j].X) != math.Float64bits(c.X) || math.Float64bits(b[j].Y) != math.Float64bits(c.Y) {
+				ch = true
+				b[j] = c
+			}
+		}
+	}
+	return ch
+}
+
+// relayout rebuilds g with the requested memory layout.
+func relayout(g geom.Geom, mode string) (geom.Geom, *layout) {
+	l := &layout{}
+	var out geom.Geom
+	switch t := g.(type) {
+	case geom.Polygon:
+		rs := make([][]geom.Point, len(t))
+		for i, r := range t {
+			rs[i] = r
+		}
+		w := l.window(mode, rs)
+		q := make(geom.Polygon, len(t))
+		for i := range w {
+			q[i] = w[i]
+		}
+		out = q
+	case geom.MultiPolygon:
+		var rs [][]geom.Point
+		for _, pg := range t {
+			for _, r := range pg {
+				rs = append(rs, r)
+			}
+		}
+		w := l.window(mode, rs)
+		q := make(geom.MultiPolygon, len(t))
+		k := 0
+		for i, pg := range t {
+			q[i] = make(geom.Polygon, len(pg))
+			for j := range pg {
+				q[i][j] = w[k]
+				k++
+			}
+		}
+		out = q
+	case geom.LineString:
+		w := l.window(mode, [][]geom.Point{t})
+		out = geom.LineString(w[0])
+	case geom.MultiLineString:
+		rs := make([][]geom.Point, len(t))
+		for i, r := range t {
+			rs[i] = r
+		}
+		w := l.window(mode, rs)
+		q := make(geom.MultiLineString, len(t))
+		for i := range w {
+			q[i] = w[i]
+		}
+		out = q
+	default:
+		out = g
+	}
+	l.snapshot()
+	return out, l
+}
+
+func layoutMode(tag string) string {
+	if i := strings.Index(tag, "."); i >= 0 {
+		return tag[i+1:]
+	}
+	return ""
+}
+
 func impl() {
 	vproto.Lines(func(line string, out *bufio.Writer) {
 		p := vproto.NewParser(line)
@@ -694,17 +894,29 @@ func impl() {
 			return s
 		}
 		pan := vproto.Safe(func() {
-			p.Next() // tag
+			mode := layoutMode(p.Next()) // tag
+			mods := ""
+			// call runs one measurement, then compares (and restores) the receiver
+			call := func(name string, l *layout, f func() string) string {
+				s := safe(f)
+				if l.changed() {
+					mods += " modified:" + name
+				}
+				return s
+			}
 			switch kind {
 			case "area":
-				g := p.Geom().(geom.Polygon)
-				res = safe(func() string { return vproto.F2H(g.Area()) }) + " " + safe(func() string { return vproto.F2H(op.Area(g)) })
+				gg, l := relayout(p.Geom(), mode)
+				g := gg.(geom.Polygon)
+				res = call("Area", l, func() string { return vproto.F2H(g.Area()) }) + " " + call("op.Area", l, func() string { return vproto.F2H(op.Area(g)) })
 			case "marea":
-				g := p.Geom().(geom.MultiPolygon)
-				res = safe(func() string { return vproto.F2H(g.Area()) }) + " " + safe(func() string { return vproto.F2H(op.Area(g)) })
+				gg, l := relayout(p.Geom(), mode)
+				g := gg.(geom.MultiPolygon)
+				res = call("Area", l, func() string { return vproto.F2H(g.Area()) }) + " " + call("op.Area", l, func() string { return vproto.F2H(op.Area(g)) })
 			case "cent":
-				g := p.Geom().(geom.Polygon)
-				res = safe(func() string { return ptRes(g.Centroid()) }) + " | " + safe(func() string {
+				gg, l := relayout(p.Geom(), mode)
+				g := gg.(geom.Polygon)
+				res = call("Centroid", l, func() string { return ptRes(g.Centroid()) }) + " | " + call("op.Centroid", l, func() string {
 					c, err := op.Centroid(g)
 					if err != nil {
 						return "err"
@@ -712,15 +924,16 @@ func impl() {
 					return ptRes(c)
 				})
 			case "mcent":
-				g := p.Geom().(geom.MultiPolygon)
-				res = safe(func() string { return ptRes(g.Centroid()) })
+				gg, l := relayout(p.Geom(), mode)
+				g := gg.(geom.MultiPolygon)
+				res = call("Centroid", l, func() string { return ptRes(g.Centroid()) })
 			case "len":
-				g := p.Geom()
-				res = safe(func() string { return vproto.F2H(g.(geom.Linear).Length()) }) + " " + safe(func() string { return vproto.F2H(op.Length(g)) })
+				g, l := relayout(p.Geom(), mode)
+				res = call("Length", l, func() string { return vproto.F2H(g.(geom.Linear).Length()) }) + " " + call("op.Length", l, func() string { return vproto.F2H(op.Length(g)) })
 			case "dist":
 				q := p.Pt()
-				g := p.Geom()
-				res = safe(func() string { return vproto.F2H(g.(geom.Linear).Distance(q)) })
+				g, l := relayout(p.Geom(), mode)
+				res = call("Distance", l, func() string { return vproto.F2H(g.(geom.Linear).Distance(q)) })
 			case "buf":
 				c := p.Pt()
 				rad := p.F()
@@ -738,6 +951,7 @@ func impl() {
 			default:
 				res = "badline"
 			}
+			res += mods
 		})
 		if pan != "" {
 			res = "harness-panic " + pan
